@@ -139,7 +139,7 @@ func (st *CtlStmt) wat(sb *strings.Builder, ind string) {
 	}
 }
 
-var ctlCount int
+var ctlCount, ctlTraps int
 
 // Case: what the executors see
 type Case struct {
@@ -272,6 +272,13 @@ func build(cases []SpecCase) (string, []Case) {
 			fns[name] = fnDef{name, sb.String()}
 			for _, a := range []string{"0", "1", "2"} {
 				r := c.Cases[a]
+				if r.Trap != "" {
+					// a trapping case costs the C and native executors a process each: every 25th is kept
+					ctlTraps++
+					if ctlTraps%25 != 1 {
+						continue
+					}
+				}
 				k := Case{Mod: "module", Fn: name, Args: []string{a}, ArgTy: []string{"i32"}, ResTy: "i32", Trap: r.Trap}
 				if r.Trap == "" {
 					k.Want = fmt.Sprint(uint32(int32(r.V)))
